@@ -566,33 +566,31 @@ def DataInfo.fromDict (d : Json) : Option DataInfo := do
   let separator ← d.get? "separator"
   some { columns, path, separator, missingDataToken }
 
-/-! ### Initial individual estimates: a DataFrame as `DataFrame.to_dict()` (dict of columns, each a
-    dict index-label -> cell) writes it and `pd.DataFrame.from_dict` reads it.  Index labels are
-    carried as `json.dumps` spells dict keys (`1` -> `"1"`); cells are JSON leaves (floats by name). -/
+/-! ### Initial individual estimates: a DataFrame as `df.to_dict(orient='split')` writes it
+    (`{'index': labels, 'columns': names, 'data': rows}`, since /repo 31739c1) and
+    `pd.DataFrame(d['data'], index=d['index'], columns=d['columns'])` reads it.  Labels and cells
+    are JSON leaves (floats by name); every key of the dict is a string, so the dict is JSON as it is. -/
 
 structure IE where
-  index : List String
-  cols : List (String × List Json)
+  index : List Json
+  columns : List String
+  data : List (List Json)      -- rows
   deriving Repr
 
-/-- `df.to_dict()` -/
-def IE.toDict (ie : IE) : Json := .obj (ie.cols.map (fun c => (c.1, .obj (ie.index.zip c.2))))
+/-- `df.to_dict(orient='split')` -/
+def IE.toDict (ie : IE) : Json :=
+  .obj [("index", .arr ie.index), ("columns", .arr (ie.columns.map .str)), ("data", .arr (ie.data.map .arr))]
 
-/-- one column of `DataFrame.from_dict(d)`; columns whose labels differ from the first column's are
-    aligned and NaN-filled by pandas — outside the model (`none`) -/
-def ieColOf (index : List String) (c : String × Json) : Option (String × List Json) :=
-  match c.2 with
-  | .obj kv => if kv.map Prod.fst = index then some (c.1, kv.map Prod.snd) else none
-  | _ => none
-
-/-- `pd.DataFrame.from_dict(d)` for a dict of dicts -/
-def IE.fromDict : Json → Option IE
-  | .obj [] => some { index := [], cols := [] }
-  | .obj ((c0, .obj kv0) :: rest) => do
-    let index := kv0.map Prod.fst
-    let cols ← allSome (ieColOf index) ((c0, .obj kv0) :: rest)
-    some { index, cols }
-  | _ => none
+/-- `pd.DataFrame(data, index=index, columns=columns)`: the number of rows must be the number of
+    labels (else ValueError); a row of another length than `columns` is padded or refused by
+    pandas — outside the model (`none`) -/
+def IE.fromDict (d : Json) : Option IE := do
+  let data ← allSome Json.asArr? (← getArr d "data")
+  let index ← getArr d "index"
+  let columns ← allSome Json.asStr? (← getArr d "columns")
+  if data.length = index.length ∧ data.all (fun r => r.length == columns.length) then
+    some { index, columns, data }
+  else none
 
 def ieOptToDict : Option IE → Json
   | none => .null
